@@ -66,3 +66,31 @@ let run () = iter_lines run_line
 
 let () = Conv.register "fs" run
 let () = Conv.register "orefa" run
+
+(* driver command "ofso": the oracle stream with OrefaFS as implementation.  As "fso" (drv_fso.ml): runs the
+   SPECIFICATION model on the history and prints  <spec result> #<snapshot> ~<kf> ~<T|F> ~<shapes> ~<A|D>
+   where T/F says whether the OrefaFS model, started from the specification's state (OrefaSpec.oworld_of_sworld),
+   gives the same projected result and the same tree. *)
+let run_ofso () =
+  iter_lines (fun line ->
+    match split_bar line with
+    | hd :: ops ->
+        (match split_ws hd with
+         | [_; _; um; snapmode] ->
+             let w = ref (spec_init (n_of_int (int_of_string um))) in
+             let outs = ref [] in
+             List.iter (fun o ->
+               let c = Drv_fs.parse_op (split_ws o) in
+               let (w', r) = spec_step true !w c in
+               let sr = Drv_fso.show_sres r and ss = Drv_fso.snap snapmode w' in
+               let (wi, ri) = o_impl_step_proj (oworld_of_sworld !w) c in
+               let same = Drv_fso.show_sres ri = sr
+                          && snapshot_text wi = Drv_fs.snapshot_text (Drv_fso.world_of w') in
+               outs := (Printf.sprintf "%s%s ~- ~%s ~%s ~%s" sr ss (if same then "T" else "F") (Drv_fso.shapes !w c)
+                          (if Drv_fso.cwd_alive w' then "A" else "D")) :: !outs;
+               w := w') ops;
+             print_endline (String.concat " | " (List.rev !outs))
+         | _ -> print_endline "BADLINE")
+    | _ -> print_endline "BADLINE")
+
+let () = Conv.register "ofso" run_ofso
